@@ -52,7 +52,7 @@ class C20(Prop):
     proof_modules = ['DznProofs.C20']
     level_rule = ('random descriptors: return type x name x 0-5 params (with/without default, const/ref/'
                   'pointer/template argument) x prefix x cav x override x initialisation x contents x owner; '
-                  'structs/classes/namespaces with random contents and identifier lists incl. the empty one; '
+                  'structs/classes/namespaces with random contents (with and without a header of their own) and identifier lists incl. the empty one; two blocks built without contents, one extended through its getter; parameter defaults with significant whitespace; '
                   'non-trivial = >=1 parameter or non-empty contents; distinct = distinct descriptor')
 
     def streams(self, rng, tier):
@@ -139,7 +139,7 @@ class C20(Prop):
                 a, b = [rng.choice(['My', 'Lib'])], [rng.choice(['My', 'Lib', 'Detail']) for _ in range(rng.randint(0, 2))]
             else:
                 a, b = rng.choice(['Widget', 'S']), rng.choice(['Tag', 'T2'])
-            two.append({'op': 'cpp.blocks2', 'family': fam, 'a': a, 'b': b, 'extend': ext, 'how': rng.choice(['append', 'iadd'])})
+            two.append({'op': 'cpp.blocks2', 'family': fam, 'a': a, 'b': b, 'extend': ext, 'how': rng.choice(['append', 'iadd', 'caller_ref'])})
         yield 'blocks', blocks
         yield 'blocks-built-without-contents', two
         yield 'misc', misc
@@ -218,6 +218,16 @@ class C20(Prop):
                 if case['family'] == 'namespace':
                     return Namespace(NamespaceIds(list(x)))
                 return (Struct if case['family'] == 'struct' else Class)(x)
+            if case['how'] == 'caller_ref':
+                # the caller hands over its own (still empty) block and fills it afterwards through its own reference
+                body = TextBlock()
+                if case['family'] == 'namespace':
+                    a = Namespace(NamespaceIds(list(case['a'])), body)
+                else:
+                    a = (Struct if case['family'] == 'struct' else Class)(case['a'], body)
+                b = mk(case['b'])
+                body += TextBlock(list(case['extend']))
+                return [str(a), str(b)]
             a, b = mk(case['a']), mk(case['b'])
             if case['how'] == 'append':
                 a.contents.append(list(case['extend']))
